@@ -156,7 +156,18 @@ def drive_case(case):
                     "name: c16\npriority: 10\ntransformations:\n  - type: nest\n    items:\n      - type: nest\n        items:\n          - id: " + call
                     + "\n            type: set_state\n            key: k\n            val: v\n"][case["depth"]]
         del EVENTS[:]
-        p = ProcessingPipeline.from_yaml(text, **kwargs)
+        if case["dirs"] == "resolver":  # the text stands in the pipeline file, which is loaded by its name
+            from sigma.processing.resolver import ProcessingPipelineResolver
+
+            base = os.path.join(d, "base")
+            with open(os.path.join(base, "pipeline.yml"), "w") as f:
+                f.write(text)
+            del EVENTS[:]
+            p = [lambda: ProcessingPipelineResolver().resolve_pipeline(os.path.join(base, "pipeline.yml")),
+                 lambda: ProcessingPipelineResolver().resolve([os.path.join(base, "pipeline.yml")]),
+                 lambda: ProcessingPipelineResolver().resolve([base])][case["id"] % 3]()
+        else:
+            p = ProcessingPipeline.from_yaml(text, **kwargs)
         o["bit"] = _find_bits(p)
         # (template kinds have no placeholder item: their rule must convert up to the template stage)
         rule = {"title": "t", "logsource": {"category": "c"}, "detection": {"sel": {"f|expand": "%ph%"} if cap == "ext" and not case["kind"].startswith("j") else {"f": "v"}, "condition": "sel"}}
